@@ -388,6 +388,11 @@ class Parser:
                 self.eat(";")
                 stmts.append(("let", name, mut, e, ann))
                 continue
+            if self.at("break") and self.peek(1)[1] in (";", "}"):
+                self.i += 1
+                self.opt(";")
+                stmts.append(("break",))
+                continue
             if self.at("while"):
                 self.i += 1
                 c = self.expr(no_struct=True)
@@ -645,7 +650,15 @@ class Parser:
             else:
                 self.i += 1
                 while not self.at("|"):
-                    params.append(self.ident())
+                    if self.opt("("):
+                        # `|(a, b)|`: a tuple pattern of plain names
+                        names_ = [self.ident()]
+                        while self.opt(","):
+                            names_.append(self.ident())
+                        self.eat(")")
+                        params.append(tuple(names_))
+                    else:
+                        params.append(self.ident())
                     if not self.opt(","):
                         break
                 self.eat("|")
@@ -742,6 +755,15 @@ class Parser:
 
 
 VTUPLE_ENUMS = set()
+
+
+def flatten_ast(e):
+    """all sub-trees of an AST value, as a list"""
+    out = [e]
+    if isinstance(e, (tuple, list)):
+        for x in e:
+            out += flatten_ast(x)
+    return out
 
 
 def ast_subst(e, m):
@@ -961,10 +983,19 @@ class Gen:
             return f"(List {self.lean_ty(ty[4:-1])})"
         if ty.startswith("KeySet<"):
             return "(List Nat)"   # a `Map<K, ()>` used as a set (K an integer / address / symbol): the list of its keys
+        if ty.startswith("Map<") and len(ty[4:-1].split(",")) == 2:
+            # a host map with opaque-identifier keys: the association list sorted by key, one entry per key
+            # (`mapGet` / `mapSet` of the prelude)
+            kt_, vt_ = ty[4:-1].split(",")
+            if self.lean_ty(kt_) != "Nat":
+                raise Unsupported(f"map keyed by {kt_}")
+            return f"(List (Nat × {self.lean_ty(vt_)}))"
         if ty.startswith("BytesN<"):
             return "Nat"     # an opaque identifier, only passed through
-        if ty == "bool":
+        if ty in ("bool", "TryOk"):
             return "Bool"
+        if ty.startswith("Client:"):
+            return "Nat"     # a cross-contract client handle: the address of the contract it talks to
         if ty == "Rounding":
             return "Rounding"
         if ty.startswith("Option<"):
@@ -1334,6 +1365,9 @@ class Gen:
             parts_ = [self.pure(x, env) for x in e[1]]
             return ("(" + ", ".join(as_nat(l_, t_) if t_ == "int" else l_ for l_, t_ in parts_) + ")",
                     "tuple<" + ",".join("u32" if t_ == "int" else t_ for _, t_ in parts_) + ">")
+        if e[0] == "macro" and e[1] == "matches" and len(e[2]) >= 2 and e[2][1] == "," and e[2][2:] == ["Ok", "(", "Ok", "(", "_", ")", ")"] \
+                and e[2][0] in env and env[e[2][0]][1] == "TryOk":
+            return (env[e[2][0]][0], "bool")
         if e[0] == "macro" and e[1] == "symbol_short" and len(e[2]) == 1 and e[2][0].startswith('"'):
             return (f"({sym_code(e[2][0][1:-1])} : Nat)", "Symbol")
         if e[0] == "call" and e[1] == ("path", ["Symbol", "new"]) and len(e[2]) == 2 and self.is_handle(e[2][0], env) \
@@ -1482,6 +1516,15 @@ class Gen:
         if rt.startswith("KeySet<") and name == "contains_key" and len(args) == 1:
             al, at_ = self.pure(args[0], env)
             return (f"(decide ({as_nat(al, at_) if at_ in NATTY or at_ == 'int' else al} ∈ {rl}))", "bool")
+        if rt.startswith("Map<") and name == "get" and len(args) == 1:
+            al, at_ = self.pure(args[0], env)
+            return (f"(mapGet {rl} {as_nat(al, at_)})", f"Option<{rt[4:-1].split(',')[1]}>")
+        if rt.startswith("Map<") and name == "values" and not args:
+            return (f"(List.map Prod.snd {rl})", f"Vec<{rt[4:-1].split(',')[1]}>")
+        if rt.startswith("Map<") and name == "keys" and not args:
+            return (f"(List.map Prod.fst {rl})", f"Vec<{rt[4:-1].split(',')[0]}>")
+        if rt.startswith("Map<") and name == "len" and not args:
+            return (f"(List.length {rl})", "u32")
         if rt.startswith("Vec<") and name == "is_empty" and not args:
             return (f"(List.isEmpty {rl})", "bool")
         if rt.startswith("Vec<") and name == "len" and not args:
@@ -1778,7 +1821,7 @@ class Gen:
             c_ = self.strip(e[1])
             cname = c_[1][1][0] + "_" + e[2]
             spec = self.reads[cname]
-            if spec[0] != "fn":
+            if spec[0] not in ("fn", "tryfn") or (spec[0] == "tryfn" and not e[2].startswith("try_")):
                 raise Unsupported(f"cross-contract call {cname} must be declared as ('fn', ..)")
             cargs = [a for a in c_[2] if not self.is_handle(a, env)] + [a for a in e[3] if not self.is_handle(a, env)]
             if len(cargs) != len(spec[1]):
@@ -1787,6 +1830,10 @@ class Gen:
             atoms = []
             def gox(j):
                 if j == len(cargs):
+                    if spec[0] == "tryfn":
+                        # `client.try_f(..)`: never traps in the caller; its value is reduced to the one bit the
+                        # caller may read with `matches!(r, Ok(Ok(_)))`
+                        return k(f"(envr.{cname} {' '.join(atoms)})", "TryOk")
                     v_ = self.fresh()
                     return f"(Comp.bind (envr.{cname} {' '.join(atoms)}) fun {v_} =>\n {k(v_, spec[2])})"
                 def kx(a, t):
@@ -1858,6 +1905,12 @@ class Gen:
                     return f"(Comp.unwrap {r} fun {v} =>\n {k(v, rt_[7:-1])})"
                 if rt_.startswith("Option<") and name == "unwrap_or_else":
                     a = self.strip(args[0])
+                    if a[0] == "closure":
+                        # `|| { panic_with_error!(..) }`: a block holding nothing but one expression is that expression
+                        b_ = self.strip(a[2])
+                        while b_[0] == "block" and ((not b_[1] and b_[2] is not None) or (len(b_[1]) == 1 and b_[2] is None and b_[1][0][0] == "expr")):
+                            b_ = self.strip(b_[2] if b_[2] is not None else b_[1][0][1])
+                        a = (a[0], a[1], b_) + tuple(a[3:])
                     if a[0] == "closure" and not a[1] and not (self.strip(a[2])[0] == "macro" and self.strip(a[2])[1] == "panic_with_error"):
                         # `opt.unwrap_or_else(|| pure default)`
                         try:
@@ -1974,6 +2027,49 @@ class Gen:
             if i == len(stmts):
                 return k_end(env)
             s = stmts[i]
+            if s[0] == "break":
+                if getattr(self, "break_k", None) is None:
+                    raise Unsupported("break outside a translated for loop")
+                return self.break_k(env)
+            if s[0] == "let" and self.strip(s[3])[0] == "mcall" and self.strip(s[3])[2] == "map" and len(self.strip(s[3])[3]) == 1 \
+                    and self.strip(self.strip(s[3])[3][0])[0] == "closure" and self.strip(self.strip(s[3])[1])[0] == "mcall" \
+                    and self.strip(self.strip(s[3])[1])[2] == "enumerate":
+                # `let it = v.iter().enumerate().map(|(i, x)| body);` — a LAZY iterator: nothing runs here. It must be
+                # consumed by exactly one later `for pat in it { .. }` of this block, which then runs the closure
+                # body at the head of every iteration (what `next()` does); the closure's parameters get fresh names
+                m_ = self.strip(s[3])
+                cl_ = self.strip(m_[3][0])
+                uses_ = [j for j in range(i + 1, len(stmts)) if ("var", s[1]) in flatten_ast(stmts[j])]
+                if len(cl_[1]) != 1 or not isinstance(cl_[1][0], tuple) or len(cl_[1][0]) != 2 or len(uses_) != 1 \
+                        or stmts[uses_[0]][0] != "for" or self.strip(stmts[uses_[0]][2]) != ("var", s[1]) \
+                        or flatten_ast(stmts[uses_[0]][3]).count(("var", s[1])) != 0:
+                    raise Unsupported("lazy iterator that is not consumed by exactly one for loop")
+                f_ = stmts[uses_[0]]
+                fresh_ = {n_: ("var", self.fresh(n_ + "_c")) for n_ in cl_[1][0]}
+                cbody_ = self.strip(cl_[2])
+                while cbody_[0] == "block" and not cbody_[1] and cbody_[2] is not None:
+                    cbody_ = self.strip(cbody_[2])
+                cbody_ = ast_subst(cbody_, fresh_)
+                head_ = ("lettuple", list(f_[1]), cbody_) if isinstance(f_[1], tuple) else ("let", f_[1], False, cbody_, None)
+                fb_ = f_[3]
+                if fb_[0] != "block":
+                    raise Unsupported("for body")
+                nf_ = ("for", tuple(fresh_[n_][1] for n_ in cl_[1][0]), m_[1], ("block", [head_] + list(fb_[1]), fb_[2]))
+                stmts2 = list(stmts[i + 1:])
+                stmts2[uses_[0] - i - 1] = nf_
+                return self.tr_stmts(stmts2, env, k_end, ret)
+            if s[0] == "lettuple" and self.strip(s[2])[0] == "tuple" and len(self.strip(s[2])[1]) == len(s[1]):
+                # `let (a, b) = (e1, e2);`: the components are evaluated in order in the OLD scope, then bound
+                comps_ = self.strip(s[2])[1]
+                got_ = []
+                def golt(j):
+                    if j == len(comps_):
+                        return go(i + 1, dict(env, **{n_: g_ for n_, g_ in zip(s[1], got_)}))
+                    def klt2(a, t):
+                        got_.append((as_nat(a, t), "u32") if t == "int" else (a, t))
+                        return golt(j + 1)
+                    return self.tr(comps_[j], env, klt2, ret)
+                return golt(0)
             if s[0] == "lettuple":
                 wc_ = self.writer_call(s[2]) if getattr(self, "store", None) else None
                 def klt(a, t):
@@ -2124,6 +2220,37 @@ class Gen:
                     nb = self.fresh(s[1] + "_")
                     return f"(optCase {a}\n (fun {nb} =>\n {go(i + 1, dict(env, **{s[1]: (nb, t[7:-1])}))})\n ({none_code()}))"
                 return self.tr(s[2], env, kle, ret)
+            if s[0] == "assign" and self.strip(s[1])[0] == "field" and s[2] == "=" and self.strip(self.strip(s[1])[1])[0] == "var" \
+                    and self.strip(self.strip(s[1])[1])[1] in env:
+                # `x.f = v;` on a local struct value: the struct is re-bound with that field replaced
+                lhs = self.strip(s[1])
+                xn_ = self.strip(lhs[1])[1]
+                xo_, xt_ = env[xn_]
+                flds_ = dict(getattr(self, "structs", {}).get(xt_, []))
+                if lhs[2] not in flds_:
+                    raise Unsupported(f"assignment to field {lhs[2]} of {xt_}")
+                ft_ = flds_[lhs[2]]
+                def kfa(a, t):
+                    return go(i + 1, dict(env, **{xn_: (f"({{ {xo_} with {lhs[2]} := {as_nat(a, t) if ft_ in NATTY else a} }} : {xt_})", xt_)}))
+                return self.tr(s[3], env, kfa, ret)
+            if s[0] == "expr" and self.strip(s[1])[0] == "mcall" and self.strip(s[1])[2] == "set" and len(self.strip(s[1])[3]) == 2 \
+                    and self.strip(self.strip(s[1])[1])[0] == "field" and self.strip(self.strip(self.strip(s[1])[1])[1])[0] == "var" \
+                    and self.strip(self.strip(self.strip(s[1])[1])[1])[1] in env:
+                # `x.f.set(k, v);` on a map-valued field of a local struct value
+                e_ = self.strip(s[1])
+                fe_ = self.strip(e_[1])
+                xn_ = self.strip(fe_[1])[1]
+                xo_, xt_ = env[xn_]
+                flds_ = dict(getattr(self, "structs", {}).get(xt_, []))
+                ft_ = flds_.get(fe_[2], "")
+                if not ft_.startswith("Map<"):
+                    raise Unsupported(f"set on field {fe_[2]} of {xt_}")
+                vt_ = ft_[4:-1].split(",")[1]
+                def kmk(ka_, kt_):
+                    def kmv(va_, vtt_):
+                        return go(i + 1, dict(env, **{xn_: (f"({{ {xo_} with {fe_[2]} := mapSet {xo_}.{fe_[2]} {as_nat(ka_, kt_)} {as_nat(va_, vtt_) if vt_ in NATTY else va_} }} : {xt_})", xt_)}))
+                    return self.tr(e_[3][1], env, kmv, ret)
+                return self.tr(e_[3][0], env, kmk, ret)
             if s[0] == "assign":
                 lhs = self.strip(s[1])
                 if lhs[0] != "var" or lhs[1] not in env:
@@ -2303,6 +2430,8 @@ class Gen:
                         if b is None:
                             return lambda: go(i + 1, env)
                         b = self.as_stmts(b)
+                        if b[0] == "if":
+                            b = ("block", [("expr", b)], None)      # `else if ..`: the nested if as the else block's only statement
                         if b[0] != "block":
                             raise Unsupported("else-if in statement position")
                         if b[2] is not None:
@@ -2389,8 +2518,11 @@ class Gen:
                 x = self.strip(x)
                 if x[0] != "if" or x[2][0] != "block":
                     return False
+                def diverges(t2_):
+                    t2_ = self.strip(t2_)
+                    return t2_[0] == "macro" and t2_[1] == "panic_with_error"
                 def unit_block(bl):
-                    return bl is None or (bl[0] == "block" and (bl[2] is None or unit_if(bl[2]))) or (bl[0] == "if" and unit_if(bl))
+                    return bl is None or (bl[0] == "block" and (bl[2] is None or unit_if(bl[2]) or diverges(bl[2]))) or (bl[0] == "if" and unit_if(bl))
                 return unit_block(x[2]) and unit_block(x[3])
             if unit_if(t_):
                 return ("block", b[1] + [("expr", b[2])], None)
@@ -2471,10 +2603,23 @@ class Gen:
                 raise Unsupported(f"zip of {at} and {bt}")
             cl, ct = f"(List.zip {al} {bl})", f"Vec<tuple<{at[4:-1]},{bt[4:-1]}>>"
             zipped = (at[4:-1], bt[4:-1])
+        elif c_[0] == "mcall" and c_[2] == "enumerate" and not c_[3] and self.strip(c_[1])[0] == "mcall" \
+                and self.strip(c_[1])[2] == "iter" and not self.strip(c_[1])[3]:
+            # `v.iter().enumerate()`: the list of (index, element) pairs
+            vl, vt = self.pure(self.strip(c_[1])[1], env)
+            if not vt.startswith("Vec<"):
+                raise Unsupported(f"enumerate over {vt}")
+            cl, ct = f"(List.zip (List.range (List.length {vl})) {vl})", f"Vec<tuple<usize,{vt[4:-1]}>>"
+            zipped = ("usize", vt[4:-1])
         else:
             if c_[0] == "mcall" and c_[2] == "iter" and not c_[3]:
                 coll = c_[1]
             cl, ct = self.pure(coll, env)
+            if ct.startswith("Map<") and isinstance(var, tuple) and len(var) == 2:
+                # `for (k, v) in map.iter()`: the entries in key order
+                kt_, vt_ = ct[4:-1].split(",", 1)
+                ct = f"Vec<tuple<{kt_},{vt_}>>"
+                zipped = (kt_, vt_)
         if not ct.startswith("Vec<"):
             raise Unsupported(f"for over {ct}")
         elt = ct[4:-1]
@@ -2494,7 +2639,7 @@ class Gen:
             # auxiliary result is `some r` when the body returned `r` from the FUNCTION, `none` at the end
             self.loops += 1
             name = f"{self.cur_ns}.{self.cur_fn}.loop{self.loops}"
-            others = [v for v in sorted(env) if not v.startswith("$") and not env[v][1].startswith(("Key:", "Client:"))]
+            others = [v for v in sorted(env) if not v.startswith("$") and not env[v][1].startswith("Key:") and not (env[v][1].startswith("Client:") and not env[v][0])]
             penv = {v: (v + "_", env[v][1]) for v in others}
             if "$st" in env:
                 penv["$st"] = ("st_", "Store")
@@ -2517,7 +2662,7 @@ class Gen:
             return (f"(Comp.bind ({name}{ev} {cl} {stp(env)}{' '.join(env[v_][0] for v_ in others)}) fun {r} =>\n"
                     f" (optCase {r}\n (fun {v} => Comp.ok {v})\n ({k_after(env)})))")
         unit_loop = not muts and not carry_st     # a loop run for its panics only (`for t in ts { if bad(t) { panic } }`)
-        others = [v for v in sorted(env) if v not in muts and not v.startswith("$") and not env[v][1].startswith(("Key:", "Client:"))]
+        others = [v for v in sorted(env) if v not in muts and not v.startswith("$") and not env[v][1].startswith("Key:") and not (env[v][1].startswith("Client:") and not env[v][0])]
         self.loops += 1
         name = f"{self.cur_ns}.{self.cur_fn}.loop{self.loops}"
         params = muts + others
@@ -2546,7 +2691,12 @@ class Gen:
         else:
             benv = dict(penv, **{var: (var + "_", elt)})
             hd = var + "_"
-        code = self.tr_stmts(body[1], benv, again, ret)
+        saved_break = getattr(self, "break_k", None)
+        self.break_k = lambda en: f"Comp.ok {tup(en) if not unit_loop else '()'}"     # `break`: the loop ends with the current values
+        try:
+            code = self.tr_stmts(body[1], benv, again, ret)
+        finally:
+            self.break_k = saved_break
         self.aux.append(f"def {name} {'(envr : ' + self.cur_ns + '.Reads) ' if rd else ''}(xs_ : List {self.lean_ty(elt)}) {plist} : Comp ({rty}) :=\n"
                         f" match xs_ with\n | [] => Comp.ok {tup(penv)}\n | {hd} :: rest_ =>\n {code}\n")
         st = self.fresh("st")
@@ -2877,6 +3027,26 @@ STRUCTS_ST = {"ContextRule": [("id", "u32"), ("signers", "Vec<Signer>")], "Simpl
 READS_ST = {"SimpleThreshold": {"authorized": "addr2bool"}}
 FILES_ST = [("SimpleThreshold", "packages/accounts/src/policies/simple_threshold.rs",
              ["get_threshold", "can_enforce", "enforce", "set_threshold", "install", "uninstall", "validate_and_set_threshold"])]
+STORE_IV = {"Verifier": {"ClaimTopicsAndIssuers": ([], "Address"), "IdentityRegistryStorage": ([], "Address")}}
+STRUCTS_IV = {"Claim": [("topic", "u32"), ("scheme", "u32"), ("issuer", "Address"), ("signature", "Bytes"), ("data", "Bytes")]}
+# the other contracts `verify_identity` talks to: functions of the reads record (the called contract first); the
+# answer of `try_is_claim_valid` is reduced to what `matches!(.., Ok(Ok(_)))` reads of it
+READS_IV = {"Verifier": {
+    "IdentityRegistryStorageClient_stored_identity": ("fn", ["Address", "Address"], "Address"),
+    "ClaimTopicsAndIssuersClient_get_claim_topics_and_issuers": ("fn", ["Address"], "Map<u32,Vec<Address>>"),
+    "IdentityClaimsClient_get_claim_ids_by_topic": ("fn", ["Address", "u32"], "Vec<Bytes32>"),
+    "IdentityClaimsClient_get_claim": ("fn", ["Address", "Bytes32"], "Claim"),
+    "ClaimIssuerClient_try_is_claim_valid": ("tryfn", ["Address", "Address", "u32", "u32", "Bytes", "Bytes"], "bool"),
+    "generate_claim_id": ("purefn", ["Address", "u32"], "Bytes32")}}
+FILES_IV = [("Verifier", "packages/tokens/src/rwa/identity_verifier/storage.rs",
+             ["claim_topics_and_issuers", "identity_registry_storage", "validate_claim", "verify_identity"])]
+STORE_WT = {"WeightedThreshold": {"AccountContext": (["Address", "u32"], "WeightedThresholdAccountParams")}}
+STRUCTS_WT = {"ContextRule": [("id", "u32"), ("signers", "Vec<Signer>")],
+              "WeightedThresholdAccountParams": [("signer_weights", "Map<Signer,u32>"), ("threshold", "u32")]}
+READS_WT = {"WeightedThreshold": {"authorized": "addr2bool"}}
+FILES_WT = [("WeightedThreshold", "packages/accounts/src/policies/weighted_threshold.rs",
+             ["get_threshold", "get_signer_weights", "calculate_weight", "can_enforce", "enforce", "set_threshold",
+              "set_signer_weight", "install", "uninstall", "calculate_total_weight"])]
 STORE_AC = {"Access": {"HasRole": (["Address", "Symbol"], "u32"), "Admin": ([], "Address"), "RoleAdmin": (["Symbol"], "Symbol")}}
 FILES_AC = [("Access", "packages/access/src/access_control/storage.rs",
              ["has_role", "get_admin", "get_role_admin", "ensure_if_admin_or_admin_role", "ensure_role"])]
@@ -3082,7 +3252,7 @@ def translate(repo, FILES=FILES, DEPS=(), imports=("OZ.Model.RustSem",), reads=N
                 if isinstance(rt, str) and rt.startswith("reads:"):
                     out.append(f"  {rn} : {rt[6:]}.Reads")
                     continue
-                if isinstance(rt, tuple) and rt[0] == "purefn":
+                if isinstance(rt, tuple) and rt[0] in ("purefn", "tryfn"):
                     out.append(f"  {rn} : {' → '.join(g0.lean_ty(t_) for t_ in rt[1])} → {g0.lean_ty(rt[2])}")
                     continue
                 if isinstance(rt, tuple):
@@ -3512,6 +3682,13 @@ def main():
         elif "--nft" in sys.argv:
             txt = translate(repo, FILES_NFT, reads=READS_NFT, structs=STRUCTS_NFT, store=STORE_NFT, impl_types={"Base": "Nft"},
                             rename_types={"ApprovalData": "Nft.ApprovalData"})
+        elif "--verifier" in sys.argv:
+            txt = translate(repo, FILES_IV, reads=READS_IV, structs=STRUCTS_IV, store=STORE_IV,
+                            tymaps={"packages/tokens/src/rwa/identity_verifier/storage.rs": {"BytesN<32>": "Bytes32"}},
+                            rename_types={"Claim": "Verifier.Claim"})
+        elif "--weighted-threshold" in sys.argv:
+            txt = translate(repo, FILES_WT, reads=READS_WT, structs=STRUCTS_WT, store=STORE_WT,
+                            rename_types={"ContextRule": "WeightedThreshold.ContextRule"})
         elif "--simple-threshold" in sys.argv:
             txt = translate(repo, FILES_ST, reads=READS_ST, structs=STRUCTS_ST, store=STORE_ST)
         elif "--access-full" in sys.argv:
